@@ -89,5 +89,5 @@ PROPS = {
     "C20": P("tsan", "exploration", (20000, 30), (600000, 540),
              "2-4 tasks, each with a private sequence of library calls (parse with return_parse_end, all print variants, edits, compare, duplicate, minify, pointer/patch/merge/sort utilities, delete) on private trees and buffers, hooks installed before the tasks start; the tasks are cooperative fibers on one OS thread and every switch (at allocator calls and at the guarded CJSON_VERIF_YIELD sites inside parse/print/delete/duplicate/sort/patch loops) is taken from the plan's seeded choice list (uniform with per-run switch probability, or a few PCT-style change points). Oracles: (A) each task's trace equals the trace of the same sequence run alone; (B) ThreadSanitizer, told that switches do not synchronise, reports no conflicting accesses (only global_error is suppressed). Distinct by the hash of the (task, yield site, next task) sequence; non-trivial with >= 2 preemptions inside library calls.",
              "hash of the executed (task, yield-site, next task) switch sequence with >= 2 preemptions",
-             [SIM_ALLOC, SIM_IN, SIM_OUT, SIM_SCHED], assumptions=["the library is built -fsanitize=thread -O0; the harness is not instrumented", "ThreadSanitizer suppression: race:global_error (the documented exception) only"], workers=12, hang_s=120, runs_per_process=400),
+             [SIM_ALLOC, SIM_IN, SIM_OUT, SIM_SCHED], assumptions=["the library is built -fsanitize=thread -O0; the harness is not instrumented", "ThreadSanitizer suppression: race:global_error (the documented exception) only"], workers=12, hang_s=120, runs_per_process=150),
 }
